@@ -22,6 +22,7 @@ class Acc(object):
         self.counts = Counter()
         self.violations = []
         self.vcount = Counter()
+        self.counters = Counter()
         self.nviol = 0
         self.samples = {}
         self.reached = 0
@@ -42,6 +43,8 @@ class Acc(object):
                 v = dict(v)
                 v["_vkey"] = key
                 self.violations.append(v)
+        for k, n in (j.get("counters") or {}).items():
+            self.counters[k] += n
         s = j.get("sample")
         if s is not None:
             lst = self.samples.setdefault(cls, [])
@@ -57,6 +60,7 @@ class Acc(object):
                 self.violations.append(v)
                 have[v.get("_vkey")] += 1
         self.vcount.update(o.vcount)
+        self.counters.update(o.counters)
         for k, lst in o.samples.items():
             mine = self.samples.setdefault(k, [])
             for s in lst:
